@@ -6,6 +6,7 @@ import (
 	"errors"
 	"net"
 	"net/http"
+	"net/url"
 	"sync"
 	"time"
 
@@ -65,8 +66,11 @@ func (r *uTLSHTTPRoundTripperImpl) RoundTrip(req *http.Request) (*http.Response,
 	if req.URL.Scheme != "https" {
 		return r.backdropTransport.RoundTrip(req)
 	}
+	// The hint is kept under the address the transports dial (host:port, see
+	// dialOrGetTLSWithExpectedALPN): look it up under the same key.
+	hintKey := dialAddress(req.URL)
 	for retryCount := 0; retryCount < 5; retryCount++ {
-		if r.getShouldConnectWithH1(req.URL.Host) {
+		if r.getShouldConnectWithH1(hintKey) {
 			resp, err := r.httpsH1Transport.RoundTrip(req)
 			if errors.Is(err, errEAGAIN) {
 				continue
@@ -80,6 +84,16 @@ func (r *uTLSHTTPRoundTripperImpl) RoundTrip(req *http.Request) (*http.Response,
 		return resp, err
 	}
 	return nil, errEAGAINTooMany
+}
+
+// dialAddress returns the host:port the HTTPS transports dial for u: the port
+// is 443 when the URL does not name one.
+func dialAddress(u *url.URL) string {
+	port := u.Port()
+	if port == "" {
+		port = "443"
+	}
+	return net.JoinHostPort(u.Hostname(), port)
 }
 
 func (r *uTLSHTTPRoundTripperImpl) getShouldConnectWithH1(domainName string) bool {
